@@ -66,6 +66,7 @@ class Repo3(_t.Generic[_T]):
     pass
 
 
+@_t.runtime_checkable
 class Proto(_t.Protocol):
     def run(self) -> int: ...
 
@@ -78,6 +79,17 @@ class Impl1(Proto):
 class Impl2(Proto):
     def run(self) -> int:
         return 2
+
+
+import enum as _enum
+import collections as _collections
+
+
+class Color(_enum.Enum):
+    RED = 1
+
+
+Pair = _collections.namedtuple("Pair", "a b")
 
 
 def a_function(x):
